@@ -289,7 +289,8 @@ def check(run: Run) -> None:
         if isinstance(n, ast.If) and "len(sig" in ast.unparse(n.test) or (isinstance(n, ast.If) and "Too many" in ast.unparse(n)):
             t = strip_sites(fc.term_of(n.test, fc.cfg.node_of(n)))
             want_t = ("op", "Compare:Lt", (("app", ("global", "builtins.len"), (sigp,), ()), ("op", "Add", (n_pos, ("app", ("global", "builtins.len"), (("attr", ap, "keywords"),), ())))))
-            run.check(t == want_t, "C06.R4", cd, n, "surplus test is len(names) < len(args) + len(keywords)", f"surplus test is {show(t)[:120]}")
+            disj = list(t[2]) if t[0] == "op" and t[1] == "Or" else [t]
+            run.check(want_t in disj, "C06.R4", cd, n, "surplus test is len(names) < len(args) + len(keywords) (possibly one of several reasons)", f"surplus test is {show(t)[:120]}")
             break
     # names come from the constructor's signature / _fields
     vc = cls.methods["visit_Call"]
@@ -297,7 +298,7 @@ def check(run: Run) -> None:
     nodep = ("param", vc.pos_params[1])
     V = ("gvisit", nodep)
     klass = ("attr", ("attr", V, "func"), "value")
-    from ..terms import decision_alternatives
+    from ..terms import decision_alternatives, subst
 
     sites = [e for e in call_events(ctx, vc, lambda nm: nm == "convert_call_to_dict") if len(e.args) >= 3]
     run.check(len(sites) >= 1, "C06.R4", vc, vc.node, "dataclass and NamedTuple constructors go through the binder", f"{len(sites)} convert_call_to_dict sites")
@@ -327,6 +328,8 @@ def check(run: Run) -> None:
             is_nt = fact_nt or any(pol and _is_nt(c_) for c_, pol in conds)
             if is_dc:
                 seen.add("dataclass")
+                pv_ = ("app", ("attr", ("attr", sig, "parameters"), "values"), (), ())
+                names_t = subst(names_t, {("app", ("global", "builtins.list"), (pv_,), ()): pv_})  # list(d.values()) iterates as d.values() does
                 ok = names_t[0] == "comp" and names_t[2] == ("attr", ("elem", names_t[3][0][0]), "name") and names_t[3][0][0] == ("app", ("attr", ("attr", sig, "parameters"), "values"), (), ()) and not names_t[3][0][1]
                 run.check(ok, "C06.R4", vc, at_, "dataclass field names are the constructor's signature parameters, in order", f"dataclass field names come from {show(names_t)[:140]}, not from the constructor's own signature: fields that the constructor does not take (init=False) or takes differently shift the positional binding", "[p.name for p in inspect.signature(cls).parameters.values()]", show(names_t))
             elif is_nt:
@@ -336,6 +339,41 @@ def check(run: Run) -> None:
             else:
                 run.fail("C06.R4", vc, at_, "a constructor-lowering site is guarded neither by is_dataclass nor by hasattr(_fields)")
     run.check(seen == {"dataclass", "namedtuple"}, "C06.R4", vc, vc.node, "both constructor kinds are lowered", f"lowered kinds: {sorted(seen)}")
+
+    # ---------------- R9 (D56): a keyword-only field takes no positional argument
+    run.rule("C06.R9", "the number of positional arguments is held against the number of parameters that can be given positionally (parameter kinds of the constructor's signature)")
+
+    def _reads_kind(t):
+        return contains(t, lambda q: q[0] == "attr" and q[2] in ("kind", "kw_only"))
+
+    kind_reads = [n for g_ in unit(m, vc, depth=1) for n in own_nodes(g_) if isinstance(n, ast.Attribute) and n.attr in ("kind", "kw_only", "KEYWORD_ONLY")]
+    if not kind_reads:
+        run.fail("C06.R9", vc, vc.node, "nothing in the constructor lowering reads the kind of a signature parameter: a keyword-only field (field(kw_only=True), @dataclass(kw_only=True)) is bound to a positional argument - Mid(x, z=0, *, y=0) called Mid(e.a, e.b, e.c) lowers to {'x','z','y'} where python raises TypeError", "n_positional = len([p for p in parameters if p.kind != p.KEYWORD_ONLY]); if n_positional < len(a.args): raise ValueError(..)", key="keyword-only constructor fields bound positionally")
+    else:
+        limited = False
+        for e in sites:
+            fx = e.facts(ctx)
+            if not any(pol and isinstance(a, ast.Call) and isinstance(a.func, ast.Name) and a.func.id == "is_dataclass" for a, pol in fx.atoms) and not any(pol and _is_dc(c_) for conds, _t in decision_alternatives(e.args[2]) for c_, pol in conds):
+                continue
+            bind_ = {("param", p_): a_ for p_, a_ in zip(cd_orig.pos_params[cd_off:], e.args)}
+            for k_, v_ in dict(e.kwargs or {}).items():
+                bind_[("param", k_)] = v_
+            for g_ in unit(m, cd_orig, depth=1):
+                if g_ is not cd_orig:
+                    continue
+                for r in [n for n in own_nodes(g_) if isinstance(n, ast.Raise)]:
+                    fx_ = Facts(ctx.analysis(g_), r)
+                    for a, pol in fx_.atoms:
+                        if not pol:
+                            continue
+                        for d_ in (a.values if isinstance(a, ast.BoolOp) and isinstance(a.op, ast.Or) else [a]):
+                            if isinstance(d_, ast.Compare) and len(d_.ops) == 1 and isinstance(d_.ops[0], (ast.Lt, ast.Gt)):
+                                lo, hi = (d_.left, d_.comparators[0]) if isinstance(d_.ops[0], ast.Lt) else (d_.comparators[0], d_.left)
+                                if _len_norm(strip_sites(fx_._term(hi))) == n_pos and _reads_kind(subst(strip_sites(fx_._term(lo)), bind_)):
+                                    limited = True
+        if not limited:
+            raise AnalysisError("the constructor lowering reads parameter kinds, but no refusal of the binder that compares them with the number of positional arguments was recognised")
+        run.check(limited, "C06.R9", cd_orig, cd_orig.node, "more positional arguments than positional parameters raise ValueError", "")
 
     # ---------------- R5
     rcv = m.find_class("_rewrite_captured_vars", in_module="func_adl.util_ast")
